@@ -324,12 +324,17 @@ func run(in Input) lib.Result {
 		}
 	}
 	// largest gap between consecutive clock observations of the sampling loop (Start, Snapshot entries, Stop request)
-	pts := append([]time.Time{startHi}, snaps...)
+	pts := []time.Time{startHi}
+	for _, t := range snaps {
+		if stopLo.IsZero() || t.Before(stopLo) {
+			pts = append(pts, t)
+		}
+	}
+	if !stopLo.IsZero() {
+		pts = append(pts, stopLo)
+	}
 	var maxGap time.Duration
 	for i := 1; i < len(pts); i++ {
-		if !stopLo.IsZero() && pts[i].After(stopLo) {
-			break
-		}
 		if g := pts[i].Sub(pts[i-1]); g > maxGap {
 			maxGap = g
 		}
